@@ -84,14 +84,21 @@ def run_inproc(argv, cwd=None, reset=True):
     return r
 
 
-def run_subprocess(argv, cwd=None, env=None, hashseed="0", timeout=900):
+def run_subprocess(argv, cwd=None, env=None, hashseed="0", timeout=900, cpus=None):
     e = dict(os.environ)
     e["PYTHONPATH"] = REPO
     e["PYTHONHASHSEED"] = str(hashseed)
     if env:
         e.update(env)
+    pre = None
+    if cpus:
+        # the process may use only `cpus` of the CPUs this one may use (taskset / a container's cpuset)
+        mine = sorted(os.sched_getaffinity(0))
+        k = os.getpid() % len(mine)            # (which ones does not matter; spread the harness's workers over all of them)
+        allowed = (mine[k:] + mine[:k])[:cpus]
+        pre = lambda: os.sched_setaffinity(0, set(allowed))       # noqa: E731
     p = subprocess.run([sys.executable, "-m", "tlexport.main"] + list(argv), cwd=cwd or REPO, env=e, capture_output=True, text=True,
-                       timeout=timeout)
+                       timeout=timeout, preexec_fn=pre)
     r = RunResult()
     r.code, r.stdout, r.stderr = p.returncode, p.stdout, p.stderr
     r.exc = p.stderr if "Traceback (most recent call last)" in p.stderr else None
